@@ -17,6 +17,8 @@ pub enum How {
     WithRings,
     /// polygon! / multipatch! macro (only used at the arities the harness spells out)
     Macro,
+    /// the macros' struct-like rules `{x: .., y: .., [z: ..,] [m: ..]}`
+    MacroStruct,
 }
 
 #[derive(Serialize, Deserialize, Debug, Clone, Hash)]
@@ -275,6 +277,84 @@ macro_rules! macro_polygon {
     }};
 }
 
+macro_rules! poly1s {
+    (2, $role:ident, $p:expr, [$($i:expr),*]) => {
+        shapefile::polygon! { $role( $( {x: $p[$i][0].v(), y: $p[$i][1].v()} ),* ) }
+    };
+    (3, $role:ident, $p:expr, [$($i:expr),*]) => {
+        shapefile::polygon! { $role( $( {x: $p[$i][0].v(), y: $p[$i][1].v(), m: $p[$i][3].v()} ),* ) }
+    };
+    (4, $role:ident, $p:expr, [$($i:expr),*]) => {
+        shapefile::polygon! { $role( $( {x: $p[$i][0].v(), y: $p[$i][1].v(), z: $p[$i][2].v(), m: $p[$i][3].v()} ),* ) }
+    };
+}
+macro_rules! poly2s {
+    (2, $r1:ident, $r2:ident, $p:expr, [$($i:expr),*], $q:expr, [$($j:expr),*]) => {
+        shapefile::polygon! {
+            $r1( $( {x: $p[$i][0].v(), y: $p[$i][1].v()} ),* ),
+            $r2( $( {x: $q[$j][0].v(), y: $q[$j][1].v()} ),* )
+        }
+    };
+    (3, $r1:ident, $r2:ident, $p:expr, [$($i:expr),*], $q:expr, [$($j:expr),*]) => {
+        shapefile::polygon! {
+            $r1( $( {x: $p[$i][0].v(), y: $p[$i][1].v(), m: $p[$i][3].v()} ),* ),
+            $r2( $( {x: $q[$j][0].v(), y: $q[$j][1].v(), m: $q[$j][3].v()} ),* )
+        }
+    };
+    (4, $r1:ident, $r2:ident, $p:expr, [$($i:expr),*], $q:expr, [$($j:expr),*]) => {
+        shapefile::polygon! {
+            $r1( $( {x: $p[$i][0].v(), y: $p[$i][1].v(), z: $p[$i][2].v(), m: $p[$i][3].v()} ),* ),
+            $r2( $( {x: $q[$j][0].v(), y: $q[$j][1].v(), z: $q[$j][2].v(), m: $q[$j][3].v()} ),* )
+        }
+    };
+}
+macro_rules! ring_by_arity_s {
+    ($d:tt, $role:ident, $p:expr) => {
+        match $p.len() {
+            3 => Some(poly1s!($d, $role, $p, [0, 1, 2]).view()),
+            4 => Some(poly1s!($d, $role, $p, [0, 1, 2, 3]).view()),
+            5 => Some(poly1s!($d, $role, $p, [0, 1, 2, 3, 4]).view()),
+            _ => None,
+        }
+    };
+}
+macro_rules! two_rings_s {
+    ($d:tt, $r1:ident, $r2:ident, $p:expr, $q:expr) => {
+        match ($p.len(), $q.len()) {
+            (3, 3) => Some(poly2s!($d, $r1, $r2, $p, [0, 1, 2], $q, [0, 1, 2]).view()),
+            (4, 3) => Some(poly2s!($d, $r1, $r2, $p, [0, 1, 2, 3], $q, [0, 1, 2]).view()),
+            (4, 4) => Some(poly2s!($d, $r1, $r2, $p, [0, 1, 2, 3], $q, [0, 1, 2, 3]).view()),
+            (5, 4) => Some(poly2s!($d, $r1, $r2, $p, [0, 1, 2, 3, 4], $q, [0, 1, 2, 3]).view()),
+            _ => None,
+        }
+    };
+}
+macro_rules! macro_polygon_s {
+    ($d:tt, $rings:expr) => {{
+        let r = $rings;
+        match r.len() {
+            1 => {
+                let p = &r[0].pts;
+                if r[0].kind == OUTER {
+                    ring_by_arity_s!($d, Outer, p)
+                } else {
+                    ring_by_arity_s!($d, Inner, p)
+                }
+            }
+            2 => {
+                let (p, q) = (&r[0].pts, &r[1].pts);
+                match (r[0].kind, r[1].kind) {
+                    (OUTER, INNER) => two_rings_s!($d, Outer, Inner, p, q),
+                    (INNER, OUTER) => two_rings_s!($d, Inner, Outer, p, q),
+                    (OUTER, OUTER) => two_rings_s!($d, Outer, Outer, p, q),
+                    _ => two_rings_s!($d, Inner, Inner, p, q),
+                }
+            }
+            _ => None,
+        }
+    }};
+}
+
 macro_rules! mp1 {
     ($k:ident, $p:expr, [$($i:expr),*]) => {
         shapefile::multipatch!( $k( $( ($p[$i][0].v(), $p[$i][1].v(), $p[$i][2].v(), $p[$i][3].v()) ),* ) )
@@ -327,6 +407,64 @@ fn macro_multipatch(r: &[Part]) -> Option<Geom> {
             (3, 1) => Some(mp2!(InnerRing, TriangleFan, p, [0, 1, 2], q, [0, 1, 2, 3]).view()),
             (5, 0) => Some(mp2!(Ring, TriangleStrip, p, [0, 1, 2], q, [0, 1, 2, 3]).view()),
             (1, 4) => Some(mp2!(TriangleFan, FirstRing, p, [0, 1, 2], q, [0, 1, 2, 3]).view()),
+            _ => None,
+        };
+    }
+    None
+}
+
+macro_rules! mp1s {
+    ($k:ident, $p:expr, [$($i:expr),*]) => {
+        shapefile::multipatch!( $k( $( {x: $p[$i][0].v(), y: $p[$i][1].v(), z: $p[$i][2].v(), m: $p[$i][3].v()} ),* ) )
+    };
+}
+macro_rules! mp2s {
+    ($k1:ident, $k2:ident, $p:expr, [$($i:expr),*], $q:expr, [$($j:expr),*]) => {
+        shapefile::multipatch!(
+            $k1( $( {x: $p[$i][0].v(), y: $p[$i][1].v(), z: $p[$i][2].v(), m: $p[$i][3].v()} ),* ),
+            $k2( $( {x: $q[$j][0].v(), y: $q[$j][1].v(), z: $q[$j][2].v(), m: $q[$j][3].v()} ),* )
+        )
+    };
+}
+
+fn macro_multipatch_s(r: &[Part]) -> Option<Geom> {
+    if r.len() == 1 && r[0].pts.len() == 3 {
+        let p = &r[0].pts;
+        return Some(
+            match r[0].kind {
+                0 => mp1s!(TriangleStrip, p, [0, 1, 2]),
+                1 => mp1s!(TriangleFan, p, [0, 1, 2]),
+                2 => mp1s!(OuterRing, p, [0, 1, 2]),
+                3 => mp1s!(InnerRing, p, [0, 1, 2]),
+                4 => mp1s!(FirstRing, p, [0, 1, 2]),
+                _ => mp1s!(Ring, p, [0, 1, 2]),
+            }
+            .view(),
+        );
+    }
+    if r.len() == 1 && r[0].pts.len() == 4 {
+        let p = &r[0].pts;
+        return Some(
+            match r[0].kind {
+                0 => mp1s!(TriangleStrip, p, [0, 1, 2, 3]),
+                1 => mp1s!(TriangleFan, p, [0, 1, 2, 3]),
+                2 => mp1s!(OuterRing, p, [0, 1, 2, 3]),
+                3 => mp1s!(InnerRing, p, [0, 1, 2, 3]),
+                4 => mp1s!(FirstRing, p, [0, 1, 2, 3]),
+                _ => mp1s!(Ring, p, [0, 1, 2, 3]),
+            }
+            .view(),
+        );
+    }
+    if r.len() == 2 && r[0].pts.len() == 3 && r[1].pts.len() == 4 {
+        let (p, q) = (&r[0].pts, &r[1].pts);
+        return match (r[0].kind, r[1].kind) {
+            (2, 3) => Some(mp2s!(OuterRing, InnerRing, p, [0, 1, 2], q, [0, 1, 2, 3]).view()),
+            (4, 5) => Some(mp2s!(FirstRing, Ring, p, [0, 1, 2], q, [0, 1, 2, 3]).view()),
+            (0, 2) => Some(mp2s!(TriangleStrip, OuterRing, p, [0, 1, 2], q, [0, 1, 2, 3]).view()),
+            (3, 1) => Some(mp2s!(InnerRing, TriangleFan, p, [0, 1, 2], q, [0, 1, 2, 3]).view()),
+            (5, 0) => Some(mp2s!(Ring, TriangleStrip, p, [0, 1, 2], q, [0, 1, 2, 3]).view()),
+            (1, 4) => Some(mp2s!(TriangleFan, FirstRing, p, [0, 1, 2], q, [0, 1, 2, 3]).view()),
             _ => None,
         };
     }
@@ -397,15 +535,19 @@ impl Prop for Rings {
         }
         ctx.class(c.ty.name());
         // macro route == constructor route
-        if c.how == How::Macro {
-            let m = match c.ty {
-                Ty::Polygon => macro_polygon!(2, &c.rings),
-                Ty::PolygonM => macro_polygon!(3, &c.rings),
-                Ty::PolygonZ => macro_polygon!(4, &c.rings),
-                _ => macro_multipatch(&c.rings),
+        if c.how == How::Macro || c.how == How::MacroStruct {
+            let m = match (c.ty, c.how) {
+                (Ty::Polygon, How::Macro) => macro_polygon!(2, &c.rings),
+                (Ty::PolygonM, How::Macro) => macro_polygon!(3, &c.rings),
+                (Ty::PolygonZ, How::Macro) => macro_polygon!(4, &c.rings),
+                (Ty::Polygon, _) => macro_polygon_s!(2, &c.rings),
+                (Ty::PolygonM, _) => macro_polygon_s!(3, &c.rings),
+                (Ty::PolygonZ, _) => macro_polygon_s!(4, &c.rings),
+                (_, How::Macro) => macro_multipatch(&c.rings),
+                _ => macro_multipatch_s(&c.rings),
             };
             if let Some(m) = m {
-                ctx.class("macro-route");
+                ctx.class(if c.how == How::Macro { "macro-route(tuple rules)" } else { "macro-route(struct rules)" });
                 ensure!(m == out, "macro-differs", "macro output {:?} differs from the constructor output {:?}", m.parts, out.parts);
             }
         }
@@ -432,7 +574,7 @@ impl Prop for Rings {
 impl RandomProp for Rings {
     fn strategy(_env: &Env) -> BoxedStrategy<RingCase> {
         let tys = prop_oneof![Just(Ty::Polygon), Just(Ty::PolygonM), Just(Ty::PolygonZ), Just(Ty::Multipatch)];
-        let hows = prop_oneof![2 => Just(How::New), 3 => Just(How::WithRings), 2 => Just(How::Macro)];
+        let hows = prop_oneof![2 => Just(How::New), 3 => Just(How::WithRings), 2 => Just(How::Macro), 2 => Just(How::MacroStruct)];
         // coordinate domain: 0 = dyadic near the origin, 1 = dyadic far from the origin, 2 = tiny rings far from
         // the origin (exact edge-wise sum, catastrophic for naive formulas), 3.. = arbitrary non-NaN doubles
         let base = || prop_oneof![
@@ -469,8 +611,8 @@ impl RandomProp for Rings {
         let small = (tys, hows, 0u8..6, base(), base())
             .prop_flat_map(|(ty, how, domain, bx, by)| {
                 let dyadic = domain <= 2;
-                let n = if how == How::Macro { 1usize..=2 } else { 1usize..=6 };
-                let ring = if how == How::Macro {
+                let n = if (how == How::Macro || how == How::MacroStruct) { 1usize..=2 } else { 1usize..=6 };
+                let ring = if (how == How::Macro || how == How::MacroStruct) {
                     // macro arities: 3..=5 vertices, no pre-closing so that the arity is what the harness spells out
                     let cfg = gen::GenCfg::new(if dyadic { gen::Profile::Dyadic } else { gen::Profile::NonNan }, false, 1, 5);
                     let kinds = if ty == Ty::Multipatch { 0i32..=5 } else { 0i32..=1 };
@@ -480,7 +622,7 @@ impl RandomProp for Rings {
                 };
                 (proptest::collection::vec(ring, n), 0u8..10, any::<bool>(), any::<bool>()).prop_map(move |(mut rings, dup, dup_rev, dup_open)| {
                     // one case in five repeats a ring right after itself (same role; possibly reversed / re-opened)
-                    if dup < 2 && how != How::Macro {
+                    if dup < 2 && (how != How::Macro && how != How::MacroStruct) {
                         let k = rings.len() - 1;
                         let mut copy = rings[k].clone();
                         if dup_open && copy.pts.len() > 2 && copy.pts.first() == copy.pts.last() {
